@@ -141,6 +141,7 @@ class Analysis:
         self.unknown_roots = set()
         self.loops = loop_info(self.f)
         self.failblocks = {}
+        self.unchecked = set()           # results of range checks that steer normal control flow (both arms live): no success assumption for them
         self.success = None              # closures consumed by `all`: only executions that return true count (CT on success)
         self.enabled = set()             # loop heads whose back edge is feasible: their loop-carried locals are havocked
         self.tag = re.sub(r'\W', '_', fname)
@@ -324,7 +325,7 @@ class Analysis:
         if crate_fn:
             self.callouts.append(('fn', base, arg_t, None, False))
         for i, a in enumerate(argv):
-            span = None
+            span = None; caps = {}
             if isinstance(a, e2.Opaque) and str(a.t).startswith('closure@'):
                 span = str(a.t)[len('closure@'):]
                 caps = {k: self.taint(E, x, st) for k, x in (a.meta or {}).items()} if isinstance(a.meta, dict) else {}
@@ -332,6 +333,15 @@ class Analysis:
                 mm = re.search(r'\{closure@([^}]*)\}', a.t)
                 span = mm.group(1) if mm else None
                 caps = {}
+            if span is None and isinstance(a, e2.Val) and isinstance(a.t, str):
+                # a function item handed to a library call (`.map(row_norm)`): the callee runs on the items
+                mf = re.search(r'fn\([^{}]*\{([\w:]+)\}', a.t) or re.match(r'^arg:((?:\w+::)*\w+)$', a.t.strip())
+                if mf:
+                    cand = [n for n in (mf.group(1), mf.group(1).split('::')[-1]) if n in self.funcs]
+                    if cand:
+                        others = [t for j, t in enumerate(arg_t) if j != i]
+                        g = self.funcs[cand[0]]
+                        self.callouts.append(('fn', cand[0], [any(others)] * len(g.params), None, False))
             if span:
                 others = [t for j, t in enumerate(arg_t) if j != i]
                 item_t = False if s == 'from_fn' else any(others)
@@ -363,6 +373,8 @@ def _semantic_dependence(A, obs, kind, timeout_s=20):
     assume = []
     for n, x in syms.items():
         m = re.match(r'^call:.*?(\w+)#\d+$', n)
+        if n in A.unchecked:
+            continue
         if m and m.group(1) in ASSUME_TRUE and z3.is_bool(x):
             assume += [x, z3.substitute(x, *sub)]
         if m and m.group(1) in ASSUME_FALSE and z3.is_bool(x):
@@ -445,6 +457,18 @@ def analyse_function(funcs, fname, roots, params, assume_true=False, max_rounds=
         if fn not in fb:
             fb[fn] = failure_only_blocks(funcs[fn]) if fn in funcs else set()
         return fb[fn]
+    # "constant-time on success" only covers checks whose failure ends the operation: a range-check result that steers ordinary control flow
+    # (both arms live) makes the check's early exit, and the branch, depend on the data
+    for b in A.branches:
+        arms = re.findall(r'(\w+): (bb\d+)', b['arms'])
+        live = [tgt for _, tgt in arms if tgt not in failblocks(b['fn'])]
+        if len(live) <= 1:
+            continue
+        for n in term_syms(b['term']):
+            m = re.match(r'^call:.*?(\w+)#(\d+)$', n)
+            if m and (m.group(1) in ASSUME_TRUE or m.group(1) in ASSUME_FALSE) and A.calltaint.get(int(m.group(2)), False) and n not in A.unchecked:
+                A.unchecked.add(n)
+                findings.append({'kind': 'call', 'fn': b['fn'], 'bb': b['bb'], 'verdict': 'dependent', 'what': f'result of the range check `{m.group(1)}` on secret data steers ordinary control flow (both outcomes continue): its early exit and this branch depend on the data', 'model': None})
     seen = set()
     for b in A.branches:
         key = (b['fn'], b['bb'])
